@@ -106,6 +106,11 @@ pub struct Node {
     // utilize this to simulate node being connected.
     #[cfg(test)]
     enabled_as_connected: AtomicBool,
+
+    // Verification hook H-NODE-STATE: per-node override consulted first by
+    // `is_enabled` / `is_connected` (0 = no override; see `verif_set_state`).
+    #[cfg(scylla_verif)]
+    verif_state: std::sync::atomic::AtomicU8,
 }
 
 /// A way that Nodes are often passed and accessed in the driver's code.
@@ -144,6 +149,8 @@ impl Node {
             pool: Some(pool),
             #[cfg(test)]
             enabled_as_connected: AtomicBool::new(false),
+            #[cfg(scylla_verif)]
+            verif_state: std::sync::atomic::AtomicU8::new(0),
         }
     }
 
@@ -161,6 +168,8 @@ impl Node {
             pool: None,
             #[cfg(test)]
             enabled_as_connected: AtomicBool::new(false),
+            #[cfg(scylla_verif)]
+            verif_state: std::sync::atomic::AtomicU8::new(0),
         }
     }
 
@@ -185,6 +194,10 @@ impl Node {
             pool: node.pool.clone(),
             #[cfg(test)]
             enabled_as_connected: AtomicBool::new(node.enabled_as_connected.load(Ordering::SeqCst)),
+            #[cfg(scylla_verif)]
+            verif_state: std::sync::atomic::AtomicU8::new(
+                node.verif_state.load(std::sync::atomic::Ordering::SeqCst),
+            ),
         }
     }
 
@@ -211,6 +224,10 @@ impl Node {
     /// Returns true if the driver has any open connections in the pool for this
     /// node.
     pub fn is_connected(&self) -> bool {
+        #[cfg(scylla_verif)]
+        if let Some((enabled, connected)) = self.verif_state() {
+            return enabled && connected;
+        }
         #[cfg(test)]
         if self.enabled_as_connected.load(Ordering::SeqCst) {
             return self.is_enabled();
@@ -225,6 +242,10 @@ impl Node {
     /// Only enabled nodes will have connections open. For disabled nodes,
     /// no connections will be opened.
     pub fn is_enabled(&self) -> bool {
+        #[cfg(scylla_verif)]
+        if let Some((enabled, _connected)) = self.verif_state() {
+            return enabled;
+        }
         self.pool.is_some()
     }
 
@@ -278,6 +299,27 @@ impl Node {
         self.pool
             .as_ref()
             .ok_or(ConnectionPoolError::NodeDisabledByHostFilter)
+    }
+}
+
+/// Verification hook H-NODE-STATE (see `crate::verif`): lets the external harness decide, per
+/// node, what `is_enabled` / `is_connected` answer, without any pool or socket.
+#[cfg(scylla_verif)]
+impl Node {
+    /// `None` removes the override; `Some((enabled, connected))` installs it
+    /// (`is_connected` then answers `enabled && connected`).
+    pub fn verif_set_state(&self, state: Option<(bool, bool)>) {
+        let v = match state {
+            None => 0,
+            Some((enabled, connected)) => 1 | ((enabled as u8) << 1) | ((connected as u8) << 2),
+        };
+        self.verif_state
+            .store(v, std::sync::atomic::Ordering::SeqCst);
+    }
+
+    fn verif_state(&self) -> Option<(bool, bool)> {
+        let v = self.verif_state.load(std::sync::atomic::Ordering::SeqCst);
+        (v & 1 != 0).then_some((v & 2 != 0, v & 4 != 0))
     }
 }
 
@@ -467,6 +509,8 @@ mod tests {
                 rack,
                 pool: None,
                 enabled_as_connected: AtomicBool::new(false),
+                #[cfg(scylla_verif)]
+                verif_state: std::sync::atomic::AtomicU8::new(0),
             }
         }
 
